@@ -55,6 +55,20 @@ def overflow_scenario(rng, family, idx, mode):
             "procs": {"r1": r1, "c1": [{"op": "reg", "tok": "last", "block": True}, {"op": "view"}, {"op": "view"}]}}
 
 
+def done_scenario(rng, family, idx, mode):
+    """Rejected and accepted updates, then the only watcher is done: the monitor exits while the callback goroutine may still
+    have their events queued (the queue is large enough): each of them must still be delivered."""
+    ops = []
+    for i in range(rng.randint(2, 4)):
+        bad = rng.random() < 0.6
+        ops.append({"op": rng.choice(["val", "block"]), "v": {"x": 19 if bad else 11 + i, "y": 0, "u": False}})
+    ops.append({"op": "done"})
+    return {"id": "%s-%s-d%d" % (family, mode[0], idx), "mode": mode, "seed": rng.randrange(1 << 30), "onnew": True, "onerr": True,
+            "cbcap": 8, "def": {"x": 1, "y": 2}, "skip": False, "delay": False, "suppress": False, "oracle": True, "maxsteps": 600,
+            "pcancel": 0.0, "cancelok": [], "init": [{"x": 11, "y": 0, "u": False}],
+            "procs": {"r1": ops, "c1": [{"op": "view"}]}}
+
+
 def gen_scenario(rng, family, idx, mode):
     nsrc = rng.choice([1, 2, 2]) if family != "C06" else rng.choice([1, 1, 2])
     sc = {"id": "%s-%s-%d" % (family, mode[0], idx), "mode": mode, "seed": rng.randrange(1 << 30),
@@ -426,6 +440,8 @@ def run_check(pid, tier, replay=None):
         scenarios += [gen_scenario(rng, pid, i, "random") for i in range(n_gated)]
         if pid in ("C08", "C06"):
             scenarios += [overflow_scenario(rng, pid, i, "random") for i in range(12 if quick else 200)]
+        if pid in ("C04", "C06", "C08"):
+            scenarios += [done_scenario(rng, pid, i, "random") for i in range(40 if quick else 400)]
         free = [gen_scenario(rng, pid, i, "free") for i in range(n_free)]
         for s in free:
             s["oracle"] = False
